@@ -811,9 +811,18 @@ func isMRAtomStart
   option pure
   ensures result <==> (t.Type == TokenLParen || t.Type == TokenLBrace || isMRIdentLike(t))
 
+// a WITHIN bound written as number and unit: the number is scaled by the unit BEFORE it is cut to whole nanoseconds
+// (1.5 SECONDS is 1 500 000 000 ns, 0.5 SECONDS is not 0); a word that is no unit is refused
 func durationUnit
   props C11 C15
   option safety
+  ensures nanoseconds-are-scaled-before-they-are-cut-to-whole-nanoseconds: (strings.ToUpper(unit) == "NS" || strings.ToUpper(unit) == "NANO" || strings.ToUpper(unit) == "NANOS" || strings.ToUpper(unit) == "NANOSECOND" || strings.ToUpper(unit) == "NANOSECONDS") && n >= 0.0 ==> result1 && float64(result0) == floor(n * 1.0)
+  ensures microseconds-are-scaled-before-they-are-cut-to-whole-nanoseconds: (strings.ToUpper(unit) == "US" || strings.ToUpper(unit) == "MICRO" || strings.ToUpper(unit) == "MICROS" || strings.ToUpper(unit) == "MICROSECOND" || strings.ToUpper(unit) == "MICROSECONDS") && n >= 0.0 ==> result1 && float64(result0) == floor(n * 1000.0)
+  ensures milliseconds-are-scaled-before-they-are-cut-to-whole-nanoseconds: (strings.ToUpper(unit) == "MS" || strings.ToUpper(unit) == "MILLI" || strings.ToUpper(unit) == "MILLIS" || strings.ToUpper(unit) == "MILLISECOND" || strings.ToUpper(unit) == "MILLISECONDS") && n >= 0.0 ==> result1 && float64(result0) == floor(n * 1000000.0)
+  ensures seconds-are-scaled-before-they-are-cut-to-whole-nanoseconds: (strings.ToUpper(unit) == "S" || strings.ToUpper(unit) == "SEC" || strings.ToUpper(unit) == "SECS" || strings.ToUpper(unit) == "SECOND" || strings.ToUpper(unit) == "SECONDS") && n >= 0.0 ==> result1 && float64(result0) == floor(n * 1000000000.0)
+  ensures minutes-are-scaled-before-they-are-cut-to-whole-nanoseconds: (strings.ToUpper(unit) == "M" || strings.ToUpper(unit) == "MIN" || strings.ToUpper(unit) == "MINS" || strings.ToUpper(unit) == "MINUTE" || strings.ToUpper(unit) == "MINUTES") && n >= 0.0 ==> result1 && float64(result0) == floor(n * 60000000000.0)
+  ensures hours-are-scaled-before-they-are-cut-to-whole-nanoseconds: (strings.ToUpper(unit) == "H" || strings.ToUpper(unit) == "HR" || strings.ToUpper(unit) == "HRS" || strings.ToUpper(unit) == "HOUR" || strings.ToUpper(unit) == "HOURS") && n >= 0.0 ==> result1 && float64(result0) == floor(n * 3600000000000.0)
+  ensures a-word-that-is-no-unit-is-refused: strings.ToUpper(unit) != "NS" && strings.ToUpper(unit) != "NANO" && strings.ToUpper(unit) != "NANOS" && strings.ToUpper(unit) != "NANOSECOND" && strings.ToUpper(unit) != "NANOSECONDS" && strings.ToUpper(unit) != "US" && strings.ToUpper(unit) != "MICRO" && strings.ToUpper(unit) != "MICROS" && strings.ToUpper(unit) != "MICROSECOND" && strings.ToUpper(unit) != "MICROSECONDS" && strings.ToUpper(unit) != "MS" && strings.ToUpper(unit) != "MILLI" && strings.ToUpper(unit) != "MILLIS" && strings.ToUpper(unit) != "MILLISECOND" && strings.ToUpper(unit) != "MILLISECONDS" && strings.ToUpper(unit) != "S" && strings.ToUpper(unit) != "SEC" && strings.ToUpper(unit) != "SECS" && strings.ToUpper(unit) != "SECOND" && strings.ToUpper(unit) != "SECONDS" && strings.ToUpper(unit) != "M" && strings.ToUpper(unit) != "MIN" && strings.ToUpper(unit) != "MINS" && strings.ToUpper(unit) != "MINUTE" && strings.ToUpper(unit) != "MINUTES" && strings.ToUpper(unit) != "H" && strings.ToUpper(unit) != "HR" && strings.ToUpper(unit) != "HRS" && strings.ToUpper(unit) != "HOUR" && strings.ToUpper(unit) != "HOURS" ==> !result1 && result0 == 0
 
 func (*Parser).expectKeyword
   props C11 C15
